@@ -1,9 +1,12 @@
 from ..framework import Spec
-from ..ties_sys import sys_tie, scenario_tie
+from ..ties_sys import sys_tie, scenario_tie, isa_tie
 from ..scenarios import gen_layout_expr_scenario
 from ..ties_layout import align_tie, zerountil_tie
 
-SPEC = Spec(pid='C02', coq_needs=['Base', 'Layout', 'LayoutProofs', 'Program', 'ProgramProofs', 'LayoutTie', 'Properties/C02'],
+SPEC = Spec(pid='C02', coq_needs=['Base', 'Layout', 'LayoutProofs', 'Program', 'ProgramProofs', 'LayoutTie', 'Match', 'ProgramIsa', 'Properties/C02'],
             ties=[align_tie(), zerountil_tie(), sys_tie('C02'),
                   # layout directives computed from address labels; .org N "GLOBAL" in a GLOBAL that does not start at 0
-                  scenario_tie('layout_exprs', gen_layout_expr_scenario, 150, 2500)])
+                  scenario_tie('layout_exprs', gen_layout_expr_scenario, 150, 2500),
+                  # instructions of generated ISAs (fields of 1..16 bits, aligned arguments behind 5..7 leftover bits) followed by
+                  # labels: the space reserved for a statement is the number of bytes it emits
+                  isa_tie({'p_macros': 0.2}, n_quick=200, name='isa_sizes')])
